@@ -314,9 +314,34 @@ def manual_specs() -> list[dict]:
     return out
 
 
+def penalty_specs() -> list[dict]:
+    """An objective that answers the worst infinity on part of the box ("death penalty"): these are real evaluations -
+    counted, charged to budgets, stored with their true fitness - although they look like a budget wrapper's refusals."""
+    out = []
+    n = 0
+    base = {"dim": 2, "box": "sym", "fn": "penalty"}
+    for root, child in (({"engine": "SEA", "pop": 8, "gens": 2}, {"engine": "DE", "pop": 5, "gens": 1}),
+                        ({"engine": "DE", "pop": 8, "gens": 1}, {"engine": "SEA", "pop": 5, "gens": 2}),
+                        ({"engine": "SHADE", "pop": 8, "gens": 1, "mem": 2}, {"engine": "SEAX", "pop": 6, "gens": 1, "p_crossover": 0.7}),
+                        ({"engine": "LHS", "pop": 10}, {"engine": "SHADE", "pop": 6, "gens": 1, "mem": 2})):
+        for maximize in (False, True):
+            for wr, gsc in (([], {"kind": "SingularEvalLimit", "n": 70}), ([["cutoff", 45]], {"kind": "MetaepochLimit", "n": 5}),
+                            ([["count"]], {"kind": "WeightedEvalLimit", "n": 50, "w": "equal"})):
+                n += 1
+                sp = dict(base, name=f"pen{n}", seed=950 + n, maximize=maximize, gsc=gsc,
+                          levels=[dict(root), dict(child, lsc={"kind": "MetaepochLimit", "n": 3})],
+                          sprout={"kind": "simple", "far": 0.02, "limit": 2}, idlecheck=False)
+                if wr:
+                    sp["wrappers"] = wr
+                    if wr[0][0] == "cutoff":
+                        sp["shared_problem"] = True
+                out.append(sp)
+    return out
+
+
 def gen_specs(seed: int, n_random: int, tier: str = "quick") -> list[dict]:
     r = random.Random(seed)
-    specs = repo_test_specs() + sweep_specs(tier) + lifecycle_specs() + engine_specs() + init_specs() + manual_specs()
+    specs = repo_test_specs() + sweep_specs(tier) + lifecycle_specs() + engine_specs() + init_specs() + manual_specs() + penalty_specs()
     for i in range(n_random):
         specs.append(random_spec(r, i))
     return specs
